@@ -32,6 +32,9 @@ def _assert_repo() -> None:
 
 
 def _campaign_by_name(mod, tier, name):
+    er = getattr(mod, "EXTRA_REPLAY", {})
+    if name in er:
+        return core.Campaign(name, None, er[name], 0)
     for c in mod.campaigns(tier, shard=0, nshards=1):
         if c.name == name:
             return c
